@@ -136,6 +136,7 @@ class State:
         self.call_mark = 0
         self.old = None       # entry-state memory of this path (shared by all forks of one entry state)
         self.resume_cut = None
+        self.entry_id = 0
         self.alloc_count = {}
 
     def fork(self):
@@ -158,6 +159,7 @@ class State:
         s.old = self.old
         s.resume_cut = self.resume_cut
         s.alloc_count = dict(self.alloc_count)
+        s.entry_id = self.entry_id
         return s
 
     def oblige(self, kind, site, goal, descr=""):
@@ -797,6 +799,7 @@ class FuncRun:
                     s0.assume(ev.bool(parse_expr(e)))
                     self.V.assumed.add((self.fname, lab or "", e))
             s0.old = dict(s0.mem)
+            s0.entry_id = entry_states.index(s0)
             if first:
                 self.old_mem = s0.old
             first = False
@@ -957,7 +960,7 @@ class FuncRun:
         env = self.loop_env(st, k)
         ev = Evaluator(self, st, self.old_mem, env, phase="inv")
         cv = ev.conc(ev.ev(("id", L["var"]), False))
-        key = (head, cv)
+        key = (head, cv, st.entry_id)
         if st.resume_cut == key:
             st.resume_cut = None
             return   # the merged continuation of this very cut: run the iteration
@@ -985,7 +988,7 @@ class FuncRun:
             return None
         key = next(iter(self.parked))
         group = self.parked.pop(key)
-        head, cv = key
+        head, cv, _eid = key
         states = [g[0] for g in group]
         st0, k, body = group[0]
         L = self.c.loops[k]
